@@ -23,7 +23,8 @@ RULE = ('scenarios that between them yield every event kind (Connecting, Connect
 ASSUMPTIONS = ['CPython reference counting finalises an unreferenced generator immediately (gc.collect() is also called)']
 
 F = refws.enc_frame
-MECHS = ('break', 'raise', 'genclose', 'with', 'with-long-message', 'rebind', 'rebind-then-finish')
+MECHS = ('break', 'raise', 'genclose', 'with', 'with-long-message', 'rebind', 'rebind-then-finish', 'with-keyboardinterrupt', 'with-systemexit',
+         'with-generatorexit')
 
 
 class Boom(Exception):
@@ -124,6 +125,8 @@ def cases(tier, seed, i, n):
         for r, mech in enumerate(MECHS[:4]):
             if tier == 'thorough' or r % 2 == 0:
                 yield dict(kind='busy-writer', mech=mech)
+            if tier == 'thorough' or r % 2 == 1:
+                yield dict(kind='busy-writer', mech=mech, at='idle')
         # the abandoned generator sits in a reference cycle (the consumer kept the exception: frame -> traceback ->
         # frame) and is finalised by the garbage collector - which may start anywhere, also while this very thread
         # is inside a send on that connection, holding the write lock
@@ -135,6 +138,9 @@ def cases(tier, seed, i, n):
             for mech in MECHS[:4] if tier == 'thorough' else (MECHS[r % 4], MECHS[(r + 1) % 4]):
                 yield dict(kind='real', mode=mode, k=k, mech=mech)
     return gen.shard(allcases(), i, n)
+
+
+KEEP = []
 
 
 def abandon(genf, ws, k, mech, policy=None, world=None):
@@ -181,6 +187,7 @@ def abandon(genf, ws, k, mech, policy=None, world=None):
         msg = '' if mech == 'with' else ('the handler failed: ' + 'détail ' * 40)
         def consume():
             events = genf()          # the consumer keeps its own reference to the generator
+            KEEP.append(events)      # ... and still holds it when the sockets are inspected
             with ws:
                 for ev in events:
                     handler(ev)
@@ -191,6 +198,25 @@ def abandon(genf, ws, k, mech, policy=None, world=None):
         except Boom:
             pass
         except Exception as e:   # noqa  (anything else leaving the with-block is noted by the caller)
+            seen.append('<with-block raised %s>' % type(e).__name__)
+    elif mech in ('with-keyboardinterrupt', 'with-systemexit', 'with-generatorexit'):
+        # "an exception leaving a with-block" - also the ones that are not Exception subclasses (Ctrl-C, sys.exit(),
+        # a `with ws:` inside a generator function whose caller closes it)
+        exc = {'with-keyboardinterrupt': KeyboardInterrupt, 'with-systemexit': SystemExit, 'with-generatorexit': GeneratorExit}[mech]
+
+        def consume():
+            events = genf()
+            KEEP.append(events)        # the consumer still holds the iterator when the sockets are inspected
+            with ws:
+                for ev in events:
+                    handler(ev)
+                    if len(seen) - 1 == k:
+                        raise exc()
+        try:
+            consume()
+        except exc:
+            pass
+        except Exception as e:   # noqa
             seen.append('<with-block raised %s>' % type(e).__name__)
     elif mech == 'rebind':
         # gen = ws.connect(...); break; gen = ws.connect(...)  - the old generator is only released AFTER the
@@ -325,17 +351,23 @@ def run_case(case, acc):
         except (simnet.Quiesced, simnet.BudgetExceeded) as e:
             acc.inconclusive.append('abandon run ended early: %r %r' % (case, e))
             return
+        # with-block mechanisms: the consumer still holds the iterator (KEEP) - leaving the block alone must have closed
+        # the socket; the selector goes with the iterator
+        open_while_held = [s.sid for s in w.socks if not s.closed] if KEEP else []
+        del KEEP[:]
         del ws
         gc.collect()
     acc.count2('oracle', 'abandon_points_checked')
     key = None
     detail = dict(seen=list(seen), expected_trace=names[:k + 1], sockets=[(s.sid, s.closed, s.conn is not None) for s in w.socks],
-                  selectors=[s.closed for s in w.selectors])
+                  selectors=[s.closed for s in w.selectors], open_while_iterator_still_referenced=open_while_held)
     if seen and seen[-1].startswith('<with-block raised'):
         key = 'with-block-replaced-the-handlers-exception:' + seen[-1][18:-1]
         seen = seen[:-1]
     if seen != names[:k + 1] and key is None:
         key = 'HARNESS-trace-mismatch'
+    if open_while_held:
+        key = 'socket-left-open-after-abandon:at-%s:%s:iterator-still-referenced' % (how[k], mech)
     for s in w.socks:
         acc.count2('oracle', 'sockets_checked')
         if not s.closed:
@@ -398,6 +430,8 @@ def run_real(case, acc):
     ws = env.WebSocket('ws://127.0.0.1:%d/' % port, proxies={})
     t0 = time.monotonic()
     seen = abandon(lambda: ws.connect(session_class=S, poll=0.1, ping_rate=0), ws, k, mech)
+    held_open = [c.fileno() for c in cap if c.fileno() != -1] if KEEP else []
+    del KEEP[:]
     done.set()
     th.join(5)
     del ws
@@ -410,6 +444,9 @@ def run_real(case, acc):
                   wall=round(time.monotonic() - t0, 2))
     if len(seen) <= k:
         acc.count2('oracle', 'real_runs_ended_before_abandon_point')
+    if held_open:
+        key = 'socket-left-open-after-abandon:real-socket:at-%s:%s:iterator-still-referenced' % (seen[-1] if seen else '?', mech)
+        detail['open_while_iterator_still_referenced'] = held_open
     if cap and cap[0].fileno() != -1:
         key = 'socket-left-open-after-abandon:real-socket:at-%s' % (seen[-1] if seen else '?')
         try:
@@ -452,9 +489,16 @@ def run_busy_writer(case, acc):
 
         seen = []
 
+        at_idle = case.get('at') == 'idle'
+        npolls = []
+
         def genf():
             for ev in ws.connect(session_class=simnet.SimSession, ping_rate=0, poll=1.0):
-                if ev.name == 'poll' and not started:
+                if ev.name == 'poll':
+                    npolls.append(1)
+                # the writer gets going at the Poll the loop is abandoned at: the one right after Ready (yielded from
+                # inside feed()) or the next one, produced by a selector time-out (yielded by run() itself)
+                if ev.name == 'poll' and not started and len(npolls) == (2 if at_idle else 1):
                     t = threading.Thread(target=writer, daemon=True)
                     started.append(t)
                     t.start()
@@ -463,7 +507,8 @@ def run_busy_writer(case, acc):
                 yield ev
         t0 = time.monotonic()
         try:
-            abandon(genf, ws, 3, mech)      # events: connecting, connected, ready, poll
+            abandon(genf, ws, 4 if at_idle else 3, mech)      # events: connecting, connected, ready, poll[, poll]
+            del KEEP[:]
         except (simnet.Quiesced, simnet.BudgetExceeded) as e:
             acc.inconclusive.append('busy-writer run ended early: %r' % (e,))
             release.set()
@@ -486,6 +531,6 @@ def run_busy_writer(case, acc):
         if not s_.closed:
             key = 'socket-left-open-after-abandon:while-another-thread-was-sending'
     if key:
-        acc.violation(key, 'C13 %s (mechanism %s)' % (key, mech), case, detail)
+        acc.violation(key + (':at-poll-idle' if case.get('at') == 'idle' else ''), 'C13 %s (mechanism %s)' % (key, mech), case, detail)
     else:
-        acc.cls('busy-writer/%s' % mech)
+        acc.cls('busy-writer/%s/%s' % (mech, case.get('at')))
